@@ -56,12 +56,23 @@ macro_rules! trial_body {
             // one sketcher: unrelated set, reinit, A, (signature), reinit, B
             let mut s = SetSketcher::<$t, u64, FnvHasher>::new($params, Default::default());
             let m = $params.get_m() as usize;
-            s.sketch_slice(&fresh_ids($rng, (10 * m).min(5000) + 3, 0)).unwrap();
+            // every stream starts with the item the previous one ended with (state kept across reinit would show)
+            let mut junk = fresh_ids($rng, (10 * m).min(5000) + 3, 0);
+            if !$a.is_empty() {
+                junk.push($a[0]);
+            }
+            s.sketch_slice(&junk).unwrap();
             s.reinit();
             s.sketch_slice(&$a).unwrap();
             let sa = s.get_signature().clone();
             s.reinit();
-            s.sketch_slice(&$b).unwrap();
+            let mut b2: Vec<u64> = $b.clone();
+            if let (Some(last), false) = ($a.last(), b2.is_empty()) {
+                if let Some(p) = b2.iter().position(|x| x == last) {
+                    b2.swap(0, p);
+                }
+            }
+            s.sketch_slice(&b2).unwrap();
             get_jaccard_index_estimate(&sa, s.get_signature()).unwrap()
         } else {
             let mut sa = SetSketcher::<$t, u64, FnvHasher>::new($params, Default::default());
@@ -103,7 +114,15 @@ pub fn run(rep: &mut Report) {
         ("one_vs_million", 1, 0, 1_000_000),
     ];
     let mut ci = 0u64;
-    for &b in &[1.001f64, 1.1, 1.5, 2.0] {
+    // fixed b values and two seeded ones per run (a piecewise formula with a threshold between grid points would otherwise never run)
+    let mut sbs: Vec<f64> = vec![1.001f64, 1.1, 1.5, 2.0];
+    {
+        let mut r = rng_from(subseed(rep.seed, "C07/S-b", &[]));
+        for _ in 0..2 {
+            sbs.push(((1. + 10f64.powf(r.random_range(-3.0..0.0))) * 1e4f64).round() / 1e4);
+        }
+    }
+    for &b in &sbs {
         for &m in &[1u64, 64, 4096] {
             for (si, (sname, n0, n1, n2)) in shapes.iter().enumerate() {
                 ci += 1;
